@@ -176,3 +176,21 @@ Fixpoint mols_eqb (a b : list (list nat)) : bool :=
   match a, b with [], [] => true | x :: a', y :: b' => nlist_eqb (nsort x) y && mols_eqb a' b' | _, _ => false end.
 Definition w_mols_ok (k : wcase) (mols : list (list nat)) : bool :=
   mols_eqb (find_molecules (length (w_xyz k)) (map norm_bond (w_added k))) mols.
+
+(* Topology.guess_anchor_molecules as reported by the implementation (None = it refuses; molecules in its order, atom
+   lists ascending) against Anchors.guess_anchor_molecules; the default other_molecules (given the anchors actually
+   used) against Anchors.default_others *)
+Require Import MD.Whole.Anchors.
+Definition w_guess_ok (k : wcase) (impl : option (list (list nat))) : bool :=
+  match guess_anchor_molecules (length (w_xyz k)) (map norm_bond (w_added k)), impl with
+  | None, None => true
+  | Some a, Some b => mols_eqb a b
+  | _, _ => false
+  end.
+Definition w_others_ok (k : wcase) (impl : list (list nat)) : bool :=
+  mols_eqb (default_others (length (w_xyz k)) (map norm_bond (w_added k)) (w_anchors k)) impl.
+
+(* the same report against the loop-level model MD.Whole.Molecules.find_molecules_loop (atom_stack / neighbor_stack) *)
+Require Import MD.Whole.Molecules.
+Definition w_mols_loop_ok (k : wcase) (mols : list (list nat)) : bool :=
+  mols_eqb (find_molecules_loop (length (w_xyz k)) (map norm_bond (w_added k))) mols.
